@@ -3,6 +3,7 @@ import Driver.Mem
 import Driver.Text
 import Driver.Load
 import Driver.Report
+import Driver.Labels
 /-
   Driver: one request per line on stdin, one answer per line on stdout.
   Unknown or malformed lines answer `bad` (never a default).
@@ -17,6 +18,8 @@ def handle (line : String) : String :=
   else if l.startsWith "dump " then handleDump l
   else if l.startsWith "load " then handleLoad l
   else if l.startsWith "report " then handleReport l
+  else if l.startsWith "label " then handleLabel l
+  else if l.startsWith "labelfile " then handleLabelFile l
   else if l.startsWith "idx " then handleIdx l
   else if l.startsWith "idxenvelope " then handleIdxEnvelope l
   else if l.startsWith "preload " then handlePreload l
